@@ -107,20 +107,20 @@ Definition loc' (r1 r2 : res) : Prop :=
 
 (* the call reached the boundary B without consuming across it, and either emitted nothing and goes on in a state from
    which nothing can be emitted at B, or emitted a token of an unsafe kind *)
-Definition bad (B : nat) (r : res) : Prop :=
-  pos (snd r) = B /\
-  ((fst (fst r) = [] /\ exists s', snd (fst r) = Some s' /\ rank s' (rest (snd r)) <= 4) \/
-   (exists k a e, fst (fst r) = [(k, a, e)] /\ unsafe k)).
+Definition bad1 (B : nat) (r : res) : Prop :=
+  pos (snd r) = B /\ fst (fst r) = [] /\ exists s', snd (fst r) = Some s' /\ rank s' (rest (snd r)) <= 4.
+Definition bad2 (B : nat) (r : res) : Prop :=
+  pos (snd r) = B /\ exists k a e, fst (fst r) = [(k, a, e)] /\ unsafe k.
 
 Lemma loc'_emit k l l' ps x' nx : start l = start l' -> loc' (emit k l ps (x' ++ b) nx) (emit k l' ps (x' ++ z2) nx).
 Proof. intro E. exists x'. split; [reflexivity|]. unfold emit. now rewrite E. Qed.
 Lemma loc'_goto toks s x' st ps lk : loc' (toks, Some s, mkLx (x' ++ b) st ps lk) (toks, Some s, mkLx (x' ++ z2) st ps lk).
 Proof. exists x'. split; reflexivity. Qed.
 
-Lemma bad_emit B k l ps rs nx : ps = B -> unsafe k -> bad B (emit k l ps rs nx).
-Proof. intros E Hk. split; [exact E|]. right. exists k, (start l), ps. split; [reflexivity|exact Hk]. Qed.
-Lemma bad_goto B s' st ps lk rs : ps = B -> rank s' rs <= 4 -> bad B ([], Some s', mkLx rs st ps lk).
-Proof. intros E Hr. split; [exact E|]. left. split; [reflexivity|]. exists s'. split; [reflexivity|exact Hr]. Qed.
+Lemma bad_emit B k l ps rs nx : ps = B -> unsafe k -> bad2 B (emit k l ps rs nx).
+Proof. intros E Hk. split; [exact E|]. exists k, (start l), ps. split; [reflexivity|exact Hk]. Qed.
+Lemma bad_goto B s' st ps lk rs : ps = B -> rank s' rs <= 4 -> bad1 B ([], Some s', mkLx rs st ps lk).
+Proof. intros E Hr. split; [exact E|]. split; [reflexivity|]. exists s'. split; [reflexivity|exact Hr]. Qed.
 
 Lemma z2_rejects p : (forall c, wsr c -> p c = false) -> match z2 with [] => True | (c, _) :: _ => p c = false end.
 Proof. intro H. destruct z2_head as (c & t & E & K). rewrite E. auto. Qed.
@@ -156,7 +156,7 @@ Hypothesis Hl : start l = start l' /\ last l = last l'.
 Ltac nt Hnt := exfalso; apply Hnt; reflexivity.
 
 Lemma ff_loop_ins : forall x ps, rpos (ff_loop U l ps (x ++ b)) <= ps + wsum x -> snd (fst (ff_loop U l ps (x ++ b))) <> None ->
-  loc' (ff_loop U l ps (x ++ b)) (ff_loop U l' ps (x ++ z2)) \/ bad (ps + wsum x) (ff_loop U l ps (x ++ b)).
+  loc' (ff_loop U l ps (x ++ b)) (ff_loop U l' ps (x ++ z2)) \/ bad2 (ps + wsum x) (ff_loop U l ps (x ++ b)).
 Proof.
   induction x as [|[r w] x IH]; intros ps H Hnt.
   - cbn [app wsum] in *. destruct b_cases as [E|(c & w & t & E & Hw)]; rewrite E in *; cbn [ff_loop] in *; [nt Hnt|].
@@ -340,7 +340,7 @@ Proof. destruct cs; [right; right; reflexivity|right; left; reflexivity]. Qed.
 
 Lemma gt_loop_ins : forall x sk cs ps, rpos (gt_loop U l sk cs ps (x ++ b)) <= ps + wsum x ->
   snd (fst (gt_loop U l sk cs ps (x ++ b))) <> None ->
-  loc' (gt_loop U l sk cs ps (x ++ b)) (gt_loop U l' sk cs ps (x ++ z2)) \/ bad (ps + wsum x) (gt_loop U l sk cs ps (x ++ b)).
+  loc' (gt_loop U l sk cs ps (x ++ b)) (gt_loop U l' sk cs ps (x ++ z2)) \/ bad2 (ps + wsum x) (gt_loop U l sk cs ps (x ++ b)).
 Proof.
   induction x as [|[r w] x IH]; intros sk cs ps H Hnt.
   - right. cbn [app wsum] in *. destruct b_cases as [E|(c & w & t & E & Hw)]; rewrite E in *; cbn [gt_loop] in *.
@@ -355,7 +355,7 @@ Proof.
     assert (R : forall sk' cs', rpos (gt_loop U l sk' cs' (ps + w) (x ++ b)) <= ps + (w + wsum x) ->
               snd (fst (gt_loop U l sk' cs' (ps + w) (x ++ b))) <> None ->
               loc' (gt_loop U l sk' cs' (ps + w) (x ++ b)) (gt_loop U l' sk' cs' (ps + w) (x ++ z2)) \/
-              bad (ps + (w + wsum x)) (gt_loop U l sk' cs' (ps + w) (x ++ b))).
+              bad2 (ps + (w + wsum x)) (gt_loop U l sk' cs' (ps + w) (x ++ b))).
     { intros sk' cs' H' Hnt'. destruct (IH sk' cs' (ps + w) ltac:(lia) Hnt') as [L|Bd]; [now left|right]. now rewrite Nat.add_assoc. }
     destruct (sk && is_space U r); [apply R; assumption|].
     destruct (Z.eqb r r_comma); [destruct cs; [nt Hnt|apply R; assumption]|].
@@ -365,7 +365,7 @@ Qed.
 
 Lemma time_loop_ins : forall x ps, rpos (time_loop U l ps (x ++ b)) <= ps + wsum x ->
   snd (fst (time_loop U l ps (x ++ b))) <> None ->
-  loc' (time_loop U l ps (x ++ b)) (time_loop U l' ps (x ++ z2)) \/ bad (ps + wsum x) (time_loop U l ps (x ++ b)).
+  loc' (time_loop U l ps (x ++ b)) (time_loop U l' ps (x ++ z2)) \/ bad2 (ps + wsum x) (time_loop U l ps (x ++ b)).
 Proof.
   induction x as [|[r w] x IH]; intros ps H Hnt.
   - right. cbn [app wsum] in *. destruct b_cases as [E|(c & w & t & E & Hw)]; rewrite E in *; cbn [time_loop] in *.
@@ -383,10 +383,10 @@ End Loops.
 Lemma lex_token_ins : forall n x, length x <= n -> forall lastk st ps,
   rpos (lex_token U lastk st ps (x ++ b)) <= ps + wsum x -> snd (fst (lex_token U lastk st ps (x ++ b))) <> None ->
   loc' (lex_token U lastk st ps (x ++ b)) (lex_token U lastk st ps (x ++ z2)) \/
-  bad (ps + wsum x) (lex_token U lastk st ps (x ++ b)).
+  bad1 (ps + wsum x) (lex_token U lastk st ps (x ++ b)).
 Proof.
   assert (B0 : forall lastk st ps, rpos (lex_token U lastk st ps ([] ++ b)) <= ps + wsum [] ->
-                snd (fst (lex_token U lastk st ps ([] ++ b))) <> None -> bad (ps + wsum []) (lex_token U lastk st ps ([] ++ b))).
+                snd (fst (lex_token U lastk st ps ([] ++ b))) <> None -> bad1 (ps + wsum []) (lex_token U lastk st ps ([] ++ b))).
   { intros lastk st ps H Hnt. cbn [app wsum] in *. destruct b_cases as [E|(c & w & t & E & Hw)]; rewrite E in *; cbn [lex_token] in *;
       [exfalso; apply Hnt; reflexivity|].
     destruct (is_digit U c && mem_N lastk last_global_time); [apply bad_goto; [lia|cbn; lia]|].
@@ -406,7 +406,7 @@ Proof.
     assert (R : forall st' ps', ps' = ps + w -> rpos (lex_token U lastk st' ps' (x ++ b)) <= ps + (w + wsum x) ->
               snd (fst (lex_token U lastk st' ps' (x ++ b))) <> None ->
               loc' (lex_token U lastk st' ps' (x ++ b)) (lex_token U lastk st' ps' (x ++ z2)) \/
-              bad (ps + (w + wsum x)) (lex_token U lastk st' ps' (x ++ b))).
+              bad1 (ps + (w + wsum x)) (lex_token U lastk st' ps' (x ++ b))).
     { intros st' ps' -> H' Hnt'. destruct (IH x ltac:(lia) lastk st' (ps + w) ltac:(lia) Hnt') as [L|Bd]; [now left|right]. now rewrite Nat.add_assoc. }
     destruct (is_digit U r && mem_N lastk last_global_time); [left; apply (loc'_goto [] _ ((r, w) :: x))|].
     destruct (is_digit U r && mem_N lastk last_local_time); [left; apply (loc'_goto [] _ ((r, w) :: x))|].
@@ -502,17 +502,19 @@ Theorem step_ins : forall s x st ps lk,
   rpos (step U s (mkLx (x ++ b) st ps lk)) <= ps + wsum x ->
   snd (fst (step U s (mkLx (x ++ b) st ps lk))) <> None ->
   loc' (step U s (mkLx (x ++ b) st ps lk)) (step U s (mkLx (x ++ z2) st ps lk)) \/
-  bad (ps + wsum x) (step U s (mkLx (x ++ b) st ps lk)).
+  bad1 (ps + wsum x) (step U s (mkLx (x ++ b) st ps lk)) \/
+  (bad2 (ps + wsum x) (step U s (mkLx (x ++ b) st ps lk)) /\ (s = SFilterFunction \/ s = SGlobalTime \/ s = STime)).
 Proof.
   intros s x st ps lk NP H Hnt.
   set (l := mkLx (x ++ b) st ps lk) in *. set (l' := mkLx (x ++ z2) st ps lk).
   assert (Hl : start l = start l' /\ last l = last l') by (split; reflexivity).
   destruct s; cbn [step] in *.
-  - (* lexToken *) subst l l'. cbn [last start pos rest] in *. eapply lex_token_ins; [apply le_n|exact H|exact Hnt].
+  - (* lexToken *) subst l l'. cbn [last start pos rest] in *.
+    destruct (lex_token_ins _ x (le_n _) lk st ps H Hnt) as [L|Bd]; [now left|right; now left].
   - (* lexSpace *) unfold lex_space in *. subst l l'. cbn [pos rest last] in *.
     rewrite (scan_while_app3 (is_space U) x b) in *. rewrite (scan_while_app3 (is_space U) x z2).
     destruct (forallb (fun q : rw => is_space U (fst q)) x).
-    + right. destruct b_cases as [E|(c & w & t & E & Hw)]; rewrite E in *; cbn [scan_while] in *; [apply bad_goto; [reflexivity|cbn; lia]|].
+    + right; left. destruct b_cases as [E|(c & w & t & E & Hw)]; rewrite E in *; cbn [scan_while] in *; [apply bad_goto; [reflexivity|cbn; lia]|].
       destruct (is_space U c).
       * exfalso. pose proof (scan_while_ge (is_space U) t (ps + wsum x + w)) as G.
         destruct (scan_while (is_space U) (ps + wsum x + w) t). unfold rpos in H. cbn in *. lia.
@@ -529,7 +531,7 @@ Proof.
     + exfalso. subst l. cbn [app wsum rest pos] in *. destruct b_cases as [E|(c & w & t & E & Hw)]; rewrite E in *; [nt2 Hnt|].
       match type of H with context [ff_loop U ?L ?P ?R] => pose proof (ff_loop_ge U L R P) end. unfold rw in *; lia.
     + subst l l'. cbn [app wsum rest pos] in *.
-      destruct (ff_loop_ins _ _ Hl x (ps + w) ltac:(unfold rw in *; lia) Hnt) as [L|Bd]; [now left|right]. now rewrite Nat.add_assoc.
+      destruct (ff_loop_ins _ _ Hl x (ps + w) ltac:(unfold rw in *; lia) Hnt) as [L|Bd]; [now left|right; right]. split; [now rewrite Nat.add_assoc|now left].
   - (* lexNode *) left. unfold lex_node in *. subst l l'. cbn [pos rest] in *. eapply node_loop_ins; [exact Hl|apply le_n|exact H|exact Hnt].
   - (* lexBlankNode *) unfold lex_blank_node in *. subst l l'. cbn [pos rest] in *. destruct x as [|[r w] x].
     + exfalso. cbn [app wsum] in *. destruct b_cases as [E|(c & w & t & E & Hw)]; rewrite E in *; [nt2 Hnt|].
@@ -552,7 +554,7 @@ Proof.
     { destruct (scan_while (ident_rune U) ps (x ++ b)). unfold rpos in H. cbn in *. lia. }
     destruct (scan_ins _ (rej_ident U HU) x ps Bd) as (E1 & E2 & _ & _). unfold rw in *. rewrite E1, E2. left. apply loc'_emit. reflexivity.
   - (* lexPredicateOrLiteral *) destruct x as [|[r w] x].
-    + right. subst l. cbn [app wsum] in *. unfold lex_pred_or_lit in *. cbn [rest pos] in *.
+    + right; left. subst l. cbn [app wsum] in *. unfold lex_pred_or_lit in *. cbn [rest pos] in *.
       destruct (index_of (zs s_anchor) _) as [p|]; destruct (index_of (zs s_literalType) _) as [q|];
         first [ nt2 Hnt
               | apply bad_goto; [lia|repeat match goal with |- context [if ?c then _ else _] => destruct c end; cbn; lia] ].
@@ -567,16 +569,16 @@ Proof.
     + left. subst l l'. cbn [app wsum rest pos] in *. eapply lit_loop_ins; [exact Hl|apply le_n|unfold rw in *; lia|exact Hnt].
   - (* lexPredicateGlobalTime *) unfold lex_global_time in *. cbn [pos rest] in *. destruct x as [|[r w] x].
     + subst l. cbn [app wsum rest pos] in *. destruct b_cases as [E|(c & w & t & E & Hw)]; rewrite E in *.
-      * right. apply bad_emit; [lia|right; left; reflexivity].
+      * right; right. split; [apply bad_emit; [lia|right; left; reflexivity]|right; now left].
       * exfalso. match type of H with context [gt_loop U ?L ?A ?B ?P ?R] => pose proof (gt_loop_ge U L R A B P) end. unfold rw in *; lia.
     + subst l l'. cbn [app wsum rest pos] in *.
-      destruct (gt_loop_ins _ _ Hl x false false (ps + w) ltac:(unfold rw in *; lia) Hnt) as [L|Bd]; [now left|right]. now rewrite Nat.add_assoc.
+      destruct (gt_loop_ins _ _ Hl x false false (ps + w) ltac:(unfold rw in *; lia) Hnt) as [L|Bd]; [now left|right; right]. split; [now rewrite Nat.add_assoc|right; now left].
   - (* lexTime *) unfold lex_time in *. cbn [pos rest] in *. destruct x as [|[r w] x].
     + subst l. cbn [app wsum rest pos] in *. destruct b_cases as [E|(c & w & t & E & Hw)]; rewrite E in *.
-      * right. apply bad_emit; [lia|right; left; reflexivity].
+      * right; right. split; [apply bad_emit; [lia|right; left; reflexivity]|right; now right].
       * exfalso. match type of H with context [time_loop U ?L ?P ?R] => pose proof (time_loop_ge U L R P) end. unfold rw in *; lia.
     + subst l l'. cbn [app wsum rest pos] in *.
-      destruct (time_loop_ins _ _ Hl x (ps + w) ltac:(unfold rw in *; lia) Hnt) as [L|Bd]; [now left|right]. now rewrite Nat.add_assoc.
+      destruct (time_loop_ins _ _ Hl x (ps + w) ltac:(unfold rw in *; lia) Hnt) as [L|Bd]; [now left|right; right]. split; [now rewrite Nat.add_assoc|right; now right].
 Qed.
 
 (* ---------------------------------------------------------------- the simulation *)
@@ -614,9 +616,9 @@ Proof.
       + rewrite <- Hend. apply PL. apply in_or_app. right. now left. }
   assert (Hwpr : widths_pos (rest l1')).
   { destruct (suf_wsum _ _ Sf) as (_ & _ & W); [|exact W]. unfold widths_pos in *. apply Forall_app. split; assumption. }
-  destruct (L Hb ltac:(cbn; discriminate)) as [(x' & Er & E2)|[Bp Bd]].
+  destruct (L Hb ltac:(cbn; discriminate)) as [(x' & Er & E2)|Bd].
   2:{ (* the call looked at b without consuming it *)
-      exfalso. cbn [fst snd] in Bp, Bd. destruct Bd as [(Et & s0 & Es & Hr)|(k & a & e & Et & Hk)].
+      exfalso. cbn [fst snd] in Bd. destruct Bd as [(Bp & Et & s0 & Es & Hr)|[(Bp & k & a & e & Et & Hk) _]]; cbn [fst snd] in *.
       - subst toks. inversion Es; subst s0. cbn [app] in Hts. subst ts'.
         destruct (no_emit_at U total f s' l1' _ fin Hwf' Hwpr Hr R1) as [Hlen|Hall].
         + rewrite app_length in Hlen. cbn [length] in Hlen. destruct post; [apply Hpost; reflexivity|cbn in Hlen; lia].
